@@ -143,6 +143,46 @@ def make_extra(pid):
     return extra
 
 
+def make_replay(pid):
+    """`./check.py Cxx --replay file`: re-run exactly the case of the replay file (same seed, tier and
+    case number) and report both kinds of failure: model/implementation disagreement and oracle
+    failure on the implementation."""
+
+    def replay(obj):
+        import json
+        import sys
+
+        import check  # the orchestrator module (check.py)
+
+        if "case" not in obj:
+            print(json.dumps(obj, indent=1)[:4000])
+            print("this replay names a broken obligation, not an input; re-run the check itself")
+            return 1
+        mod = sys.modules[f"checks.{pid.lower()}"]
+        try:
+            only = int(obj["case"])
+        except ValueError:
+            print("replay file has no numeric case")
+            return 1
+        r = check.standard_run(mod, obj.get("tier", "quick"), obj["seed"], only=only)
+        bad = False
+        for d in r["disagreements"]:
+            bad = True
+            print(f"case {d['case']} op {d['op_index']}: {d['op']}\n  impl : {d['impl']}\n  model: {d['model']}")
+        for d in r["oracle_failures"]:
+            bad = True
+            print(f"case {d['case']}: {d['what']}")
+            if d.get("source"):
+                print(d["source"])
+        for f in r["failures"]:
+            bad = True
+            print("failure:", f)
+        print("replay:", "still fails" if bad else "passes")
+        return 1 if bad else 0
+
+    return replay
+
+
 COMMON_TRUSTED = [
     "Lean 4.33.0 kernel; axioms per theorem listed under 'theorems'",
     "hand-written model lean/TrustVerif/Model/StCore.lean (interpreter: eval/ops.rs, numeric.rs, eval/expr/eval.rs, "
